@@ -23,7 +23,7 @@ import (
 )
 
 type c20Act struct {
-	Kind string `json:"kind"` // gated quick open stop resize
+	Kind string `json:"kind"` // gated quick open stop resize fill (pool-size gated tasks, then N more: a backlog behind busy workers)
 	Wait bool   `json:"wait"` // SubmitWait (in a goroutine) instead of Submit
 	N    int    `json:"n"`
 	Nil  bool   `json:"nil,omitempty"` // the task's result is nil (a result like any other: it has to be delivered)
@@ -42,6 +42,12 @@ func genC20(t *rapid.T) c20Case {
 			a.Kind = "open"
 		}
 		c.Acts = append(c.Acts, a)
+	}
+	if rapid.IntRange(0, 2).Draw(t, "backlog") == 0 {
+		// a backlog behind busy workers, then a Resize (mostly shrinking) or Stop, then whatever was drawn above
+		pre := []c20Act{{Kind: "fill", Wait: rapid.Bool().Draw(t, "fillwait"), N: rapid.IntRange(1, 2*c.Size+1).Draw(t, "filln")},
+			{Kind: pick(t, "after_fill", "resize", "resize", "resize", "stop"), N: pick(t, "newsize", 0, 0, 1, 2)}}
+		c.Acts = append(pre, c.Acts...)
 	}
 	return c
 }
@@ -86,6 +92,7 @@ func runC20(tb stat.TB, c c20Case) {
 	nt := false
 	resizeDone := []chan struct{}{}
 
+	settle := 120 * time.Millisecond
 	submit := func(gated, wait, nilRes bool) *c20Task {
 		t := &c20Task{id: len(tasks), nilRes: nilRes, gated: gated, wait: wait, gate: make(chan struct{}), started: make(chan struct{}), submitReturned: make(chan struct{}), waitDone: make(chan struct{})}
 		tasks = append(tasks, t)
@@ -127,7 +134,7 @@ func runC20(tb stat.TB, c c20Case) {
 		select {
 		case <-t.started:
 		case <-t.waitDone:
-		case <-time.After(120 * time.Millisecond):
+		case <-time.After(settle):
 		}
 		if !wait {
 			select {
@@ -175,6 +182,15 @@ func runC20(tb stat.TB, c c20Case) {
 			submit(true, a.Wait, a.Nil)
 		case "quick":
 			submit(false, a.Wait, a.Nil)
+		case "fill":
+			for k := 0; k < c.Size; k++ {
+				submit(true, a.Wait, false)
+			}
+			settle = 15 * time.Millisecond // these only queue up: nothing to wait for
+			for k := 0; k < a.N; k++ {
+				submit(k%2 == 0, a.Wait && k%3 != 0, false)
+			}
+			settle = 120 * time.Millisecond
 		case "open":
 			var cand []*c20Task
 			for _, t := range tasks {
